@@ -57,11 +57,15 @@ fn group_field_types(ast: &mut syn::DeriveInput) {
 
 /// Puts an attribute that belongs to nobody's derive (`#[doc(hidden)]`, `#[allow(dead_code)]`, a tool attribute) on the item, on
 /// every variant and on every field.
-fn decorate_foreign(ast: &mut syn::DeriveInput, which: usize) {
-    let attr: syn::Attribute = match which % 3 {
-        0 => syn::parse_quote!(#[doc(hidden)]),
-        1 => syn::parse_quote!(#[allow(dead_code)]),
-        _ => syn::parse_quote!(#[rustfmt::skip]),
+fn decorate_foreign(ast: &mut syn::DeriveInput, which: usize, text: Option<&str>) {
+    use syn::parse::Parser;
+    let attr: syn::Attribute = match text.and_then(|t| syn::Attribute::parse_outer.parse_str(t).ok()).and_then(|mut v| v.pop()) {
+        Some(a) => a, // e.g. the helper attribute of ANOTHER derive (`#[into_iterator(ref)]` while deriving Into)
+        None => match which % 3 {
+            0 => syn::parse_quote!(#[doc(hidden)]),
+            1 => syn::parse_quote!(#[allow(dead_code)]),
+            _ => syn::parse_quote!(#[rustfmt::skip]),
+        },
     };
     fn fields(fs: &mut syn::Fields, attr: &syn::Attribute) {
         for f in fs.iter_mut() {
@@ -280,7 +284,7 @@ pub fn main(args: &[String]) -> i32 {
             // the same item with an unrelated attribute before and after the attributes of the item, of every variant and of every
             // field: the outcome must be the same (compared here, so that only a verdict travels)
             if let Ok(Ok(mut ast)) = std::panic::catch_unwind(|| syn::parse_str::<syn::DeriveInput>(item)) {
-                decorate_foreign(&mut ast, which as usize);
+                decorate_foreign(&mut ast, which as usize, v.get("foreign_text").and_then(|t| t.as_str()));
                 let o2 = expand_ast(d, &ast);
                 let same = match (&o, &o2) {
                     (Outcome::Ok(a), Outcome::Ok(b)) => a == b || canonical_items(a) == canonical_items(b),
